@@ -91,6 +91,56 @@ def parse_cfg(cfg_path):
 TLC_STATS = re.compile(r"(\d+) states generated, (\d+) distinct states found, (\d+) states left on queue")
 
 
+def _spec_digest(module, cfg):
+    """sha256 over the module, its configuration and every local module it (transitively) EXTENDS / INSTANCEs"""
+    import hashlib
+    seen, todo = set(), [module]
+    h = hashlib.sha256()
+    h.update(open(os.path.join(SPECS, cfg), "rb").read())
+    while todo:
+        m = todo.pop()
+        f = os.path.join(SPECS, m + ".tla")
+        if m in seen or not os.path.exists(f):
+            continue
+        seen.add(m)
+        text = open(f).read()
+        h.update(m.encode() + b"\0" + text.encode())
+        for line in text.splitlines():
+            mm = re.match(r"\s*EXTENDS\s+(.*)", line)
+            if mm:
+                todo += [x.strip() for x in mm.group(1).split(",")]
+            mm = re.search(r"INSTANCE\s+(\w+)", line)
+            if mm:
+                todo.append(mm.group(1))
+    return h.hexdigest()
+
+
+def run_tlc_cached(module, cfg, wd, **kw):
+    """Pure model checking of a specification does not depend on the code under test: its outcome (statistics, or the
+    failure) is cached under harness/target/mc_cache keyed by the content of the specification and configuration.
+    A fresh checkout has no cache, so the first check that needs a configuration computes it."""
+    cdir = os.path.join(TARGET, "mc_cache")
+    os.makedirs(cdir, exist_ok=True)
+    key = _spec_digest(module, cfg)
+    cf = os.path.join(cdir, f"{module}.{cfg}.{key[:24]}.json")
+    if os.path.exists(cf):
+        c = json.load(open(cf))
+        if c.get("error"):
+            raise ToolError(c["error"])
+        c["stats"]["from_cache"] = True
+        return c
+    try:
+        r = run_tlc(module, cfg, wd, capture_edges=False, **kw)
+    except ToolError as e:
+        json.dump({"error": str(e), "computed_at": time.strftime("%Y-%m-%dT%H:%M:%SZ", time.gmtime())}, open(cf, "w"))
+        raise
+    out = {"stats": dict(r["stats"], computed_at=time.strftime("%Y-%m-%dT%H:%M:%SZ", time.gmtime()), from_cache=False), "edges_raw": None, "out": None}
+    tmp = cf + f".{os.getpid()}.tmp"
+    json.dump(out, open(tmp, "w"))
+    os.replace(tmp, cf)
+    return out
+
+
 def run_tlc(module, cfg, wd, workers=4, timeout=900, extra=(), env_extra=None, capture_edges=True,
             simulate=None):
     """Run TLC on specs/<module>.tla with specs/<cfg>. Returns dict with stats, edges path, output tail.
